@@ -151,6 +151,8 @@ func Signature(vs []Verdict, p Program, r *Result) string {
 	switch op.K {
 	case OpWS:
 		kind = OpW
+	case OpOWS:
+		kind = OpOW
 	case OpCL, OpCT, OpTRD, OpTR, OpTV, OpTE, OpWH:
 		kind = "H" // header / status operations: nothing is emitted, the order among them is irrelevant
 	}
@@ -231,7 +233,14 @@ func clauseSet(vs []Verdict) string {
 // with the body pattern).
 func validProgram(p Program) bool {
 	off := 0
-	for _, op := range p.Ops {
+	for i, op := range p.Ops {
+		if op.IsOverrun() {
+			// still an overrun where it stands
+			pm := ModelOf(Program{Version: p.Version, Ops: p.Ops[:i]})
+			if cl := pm.DeclaredCL(); !pm.CLInForce() || op.N <= cl-pm.Body {
+				return false
+			}
+		}
 		switch op.K {
 		case OpRFF:
 			if op.N != FileLen-off {
